@@ -119,8 +119,12 @@ func genC11(seed uint64, tier string) *plan.Plan {
 				// a long message: beyond one read buffer (4 KiB), up to the 64 KiB limit
 				nrec = 20 + r.IntN(1500)
 			}
+			padOnly := r.IntN(15) == 0 // a set that holds padding and no record: a message like any other
+			if padOnly {
+				nrec = 0
+			}
 			for {
-				body := t.dataBody(r, nrec, []int{0, 5, 300}[r.IntN(3)], r.IntN(4) == 0, false)
+				body := t.dataBody(r, nrec, []int{0, 5, 300}[r.IntN(3)], r.IntN(4) == 0, padOnly)
 				if len(body)+20 <= 65535 {
 					b = t.dataMsg(hdr(), body)
 					break
